@@ -1465,6 +1465,85 @@ pub fn run(ctx: &mut Ctx, eng: &mut dyn Engine) {
         }
     }
 
+    // ---- 19d. BOTH SIDES OF THE LIMITS OF BlockDecoder::init (seeded change C02-10: Compact No-Code limit 65536 -> u16::MAX refused the
+    //            legal block of exactly 65536 symbols; "> limit is refused" alone does not see it): one source block of k symbols,
+    //            k in {limit - 1, limit, limit + 1} for No-Code (65536), Raptor (8192), RaptorQ (56403); hand-written FDT (OTI from the
+    //            FDT, B = k through the u32 attribute), hand-made packets without EXT_FTI.  Quick: the first symbols and the last
+    //            representable one (accept / refuse of init is visible at the first packet: refused => the object errors).
+    //            Thorough: the whole No-Code block of 65536 x 2 bytes, which must complete byte-exact.
+    {
+        let dummy = {
+            let oti = scheme_oti(0, 16, 4, 0, true);
+            let spec = ObjSpec { content: content(&mut rng, 16), cenc: Cenc::Null, inband_cenc: false, md5: false, oti: None, transfers: 1 };
+            make_session(&oti, &[spec], 1, 1)
+        };
+        if let Some(sess) = dummy {
+            let toi = sess.objs[0].toi;
+            // (FEC Encoding ID, E, limit, scheme-specific for make_oti, Scheme-Specific-Info bytes of the FDT)
+            let schemes: Vec<(u8, u16, u32, Option<(u8, u32, u32, u32)>, Option<Vec<u8>>)> = vec![
+                (0, 2, 65536, None, None),
+                (1, 4, 8192, Some((2, 1, 1, 4)), Some(vec![0, 1, 1, 4])),
+                (6, 4, 56403, Some((1, 1, 1, 4)), Some(vec![1, 0, 1, 4])),
+            ];
+            for (fec, e, limit, ss, ssi) in schemes {
+                for k in [limit - 1, limit, limit + 1] {
+                    let tl = k as usize * e as usize;
+                    let data = content(&mut rng, tl);
+                    let ssi_attr = match &ssi {
+                        Some(b) => format!(" FEC-OTI-Scheme-Specific-Info=\"{}\"", { use base64::Engine; base64::engine::general_purpose::STANDARD.encode(b) }),
+                        None => String::new(),
+                    };
+                    let xml = fdt_xml(&[format!(
+                        "<File TOI=\"{}\" Content-Location=\"file:///o0\" Content-Length=\"{}\" Transfer-Length=\"{}\" FEC-OTI-FEC-Encoding-ID=\"{}\" FEC-OTI-Maximum-Source-Block-Length=\"{}\" FEC-OTI-Encoding-Symbol-Length=\"{}\"{}/>",
+                        toi, tl, tl, fec, k, e, ssi_attr
+                    )]);
+                    let oti2 = match hk::make_oti(fec, 0, k, e, 0, ss, false) {
+                        Some(o) => o,
+                        None => continue,
+                    };
+                    // the largest ESI the payload ID can carry: 16 bits (No-Code, Raptor), 24 bits (RaptorQ)
+                    let esi_max: u32 = if fec == 6 { (1 << 24) - 1 } else { 65535 };
+                    let full = thorough && fec == 0 && k == limit;
+                    let esis: Vec<u32> = if full {
+                        (0..k).collect()
+                    } else {
+                        let mut v = vec![0u32, 1, 2];
+                        if k - 1 <= esi_max { v.push(k - 1); }
+                        v
+                    };
+                    let mut h: Vec<Option<Vec<u8>>> = Vec::new();
+                    if full {
+                        h.push(Some(format!("#expect {} g {}", toi, hex(&data)).into_bytes()));
+                    }
+                    h.extend(fdt_packets(7, &xml).into_iter().map(Some));
+                    for esi in esis {
+                        let f = hk::PktFields {
+                            payload: data[esi as usize * e as usize..(esi as usize + 1) * e as usize].to_vec(),
+                            transfer_length: tl as u64,
+                            esi,
+                            sbn: 0,
+                            toi,
+                            fdt_id: None,
+                            cenc: Cenc::Null,
+                            inband_cenc: false,
+                            close_object: false,
+                            source_block_length: 0,
+                            sender_current_time: false,
+                        };
+                        let o3 = oti2.clone();
+                        if let Ok(raw2) = guarded(std::panic::AssertUnwindSafe(move || hk::new_alc_pkt(&o3, &0u128, TSI, &f, false, now()))) {
+                            h.push(Some(raw2));
+                        }
+                    }
+                    h.push(None);
+                    let cc = CaseCfg { expect_mode: None, ..Default::default() };
+                    r.ctx.count(&format!("init-limits:{}:{}", fec, if k <= limit { "accept" } else { "refuse" }));
+                    r.case("init-limits", &cc, &sess, &[], &h, false);
+                }
+            }
+        }
+    }
+
     // ---- 20. OBJECT-level FTI poisoning (review batch 3): ONE forged datagram of the TOI with a conflicting EXT_FTI (transfer length
     //           2^40, another E, another B) arrives BEFORE the FDT and the genuine packets; the FDT is the authority: the object must
     //           be delivered byte-exact (before the repair in attach_fdt it ended `interrupted`)
